@@ -2,7 +2,7 @@
 
 import math
 
-from kernel.type import RealType
+from kernel.type import RealType, NatType
 from kernel.term import Term, Var, Lambda, Inst, Nat, Real, Eq
 from kernel.thm import Thm
 from kernel.proofterm import ProofTerm, TacticException
@@ -206,6 +206,32 @@ class ConstInequalityMacro(Macro):
 
     def can_eval(self, goal, prevs):
         if len(prevs) == 0:
+            # The evaluators below do not look at types and compute as on real
+            # numbers, so they are used for (in)equations between real numbers
+            # only. On natural numbers (where subtraction is truncated) the
+            # evaluator for natural numbers decides.
+            body = goal.arg if goal.is_not() else goal
+            if not (body.is_equals() or body.is_compares()):
+                return False
+            T = body.arg1.get_type()
+            if T == NatType:
+                try:
+                    a, b = nat.nat_eval(body.arg1), nat.nat_eval(body.arg)
+                except ConvException:
+                    return False
+                if body.is_equals():
+                    res = (a == b)
+                elif body.is_less():
+                    res = (a < b)
+                elif body.is_less_eq():
+                    res = (a <= b)
+                elif body.is_greater():
+                    res = (a > b)
+                else:
+                    res = (a >= b)
+                return (not res) if goal.is_not() else res
+            elif T != RealType:
+                return False
             res = eval_inequality_expr(goal)
             return res
         else:
